@@ -150,7 +150,18 @@ def _rule_R14(text, args):
     return rx.subn(lambda m: "for vi__ in it: 0..(%s) /*@loophead*/ { let %s = &%s[vi__];" % (m.group("n").strip(), m.group("pat"), m.group("e")), text)
 
 
-RULES = {"R14": _rule_R14, "R13": _rule_R13, "R1": _rule_R1, "R4": _rule_R4, "R4rev": _rule_R4rev, "R11": _rule_R11, "R8": _rule_R8, "R7": _rule_R7,
+def _rule_R6(text, args):
+    # path normalisation for the one-file unit: args are from=to pairs (e.g. super::OptionalSpace=OptionalSpace)
+    n = 0
+    for a in args:
+        frm, _, to = a.partition("=")
+        rx = re.compile(r"(?<![A-Za-z0-9_:])" + re.escape(frm) + r"(?![A-Za-z0-9_])")
+        text, k = rx.subn(to, text)
+        n += k
+    return text, n
+
+
+RULES = {"R6": _rule_R6, "R14": _rule_R14, "R13": _rule_R13, "R1": _rule_R1, "R4": _rule_R4, "R4rev": _rule_R4rev, "R11": _rule_R11, "R8": _rule_R8, "R7": _rule_R7,
          "R9": _rule_R9, "R12": _rule_R12}
 
 
@@ -300,7 +311,12 @@ def weave_fn(item_text, opts, spec, loops_spec, hints, log, what):
                 if m.group(2) == "top":
                     inserts.append((toks[lb].end, text, 2))
                 else:
-                    inserts.append((toks[lc].start, text, 2))
+                    # the body may end in an expression statement without `;` (e.g. `x = match .. { .. }`)
+                    pj = lc - 1
+                    while pj > lb and toks[pj].kind in ("ws", "comment", "doc"):
+                        pj -= 1
+                    semi = "" if (toks[pj].kind == "punct" and toks[pj].text == ";") or pj == lb else ";"
+                    inserts.append((toks[lc].start, semi + text, 2))
             elif pos.startswith("before ") or pos.startswith("after "):
                 which, _, rest = pos.partition(" ")
                 m = re.match(r"\s*`([^`]*)`\s*(#\d+)?\s*$", rest)
